@@ -132,6 +132,12 @@ fn dispatch(cmd: &str, a: &[&str]) -> Result<Vec<String>, String> {
             out.push(hex(format!("{}", stream.flushes).as_bytes()));
             Ok(out)
         }
+        "b64_encode" => {
+            match crate::core::base64::Base64::encode(&unhex(a[0])) { Ok(t) => Ok(vec![hex(t.as_bytes())]), Err(e) => Err(e) }
+        }
+        "b64_decode" => {
+            match crate::core::base64::Base64::decode(ustr(a[0])) { Ok(b) => Ok(vec![hex(&b)]), Err(e) => Err(e) }
+        }
         "pool" => {
             // args: N, then one token per task: i = instant, r = rendezvous of all r tasks, s = slow (150 ms), p = panics
             // reply: completed-count, per-task execution counts, max observed concurrency
